@@ -559,6 +559,10 @@ fire("c06-negative-constant-threshold", ["C06"], SF,
      "                and (enclosing_prec > PREC_SUM):",
      "                and (enclosing_prec > PREC_CALL):",
      "NegInt")
+fire("c05-revert-cached-stringifier-receiver", ["C05"], SF,
+     "        return CachedMapper.__call__(self, expr, prec, *args, **kwargs)",
+     "        return CachedMapper.__call__(expr, prec, *args, **kwargs)",
+     "S/explicit-base-call/CachedStringifyMapper.__call__/receiver")
 fire("c06-revert-power-base", ["C06"], SF,
      "self.rec(expr.base, PREC_POWER+1, *args, **kwargs),",
      "self.rec(expr.base, PREC_POWER, *args, **kwargs),",
